@@ -261,6 +261,15 @@ Proof.
     + eapply IH; eauto.
 Qed.
 
+Lemma apply_kind_no_panic : forall kd v s, apply_kind kd v <> Panic s.
+Proof.
+  intros kd v s. destruct kd, v; cbn [apply_kind]; try discriminate.
+  - destruct (z =? -1); discriminate.
+  - destruct (zlookup font_style_table z); discriminate.
+  - destruct (zlookup ms_char_set_table z); discriminate.
+  - destruct (get width_name_table s0); discriminate.
+Qed.
+
 (** an unknown enumeration value makes the conversion fail *)
 Lemma table_convert_error : forall t r lk k kd v e,
   In (lk, k, kd) t -> get r lk = Some v -> apply_kind kd v = Err e ->
@@ -271,20 +280,9 @@ Proof.
   - inversion Hin; subst. rewrite Hg, Ha. eauto.
   - destruct (IH r lk k kd v e Hin Hg Ha) as [e' E].
     destruct (get r lk0) as [v0|]; [|eauto].
-    destruct (apply_kind kd0 v0) as [[v'|]|e0|s]; eauto.
+    destruct (apply_kind kd0 v0) as [[v'|]|e0|s] eqn:A; eauto.
     + rewrite E. eauto.
-    + (* no conversion panics *)
-      exfalso. destruct kd0, v0; cbn in *; try discriminate;
-        repeat match goal with H : context [match ?x with _ => _ end] |- _ => destruct x; try discriminate end.
-Qed.
-
-Lemma apply_kind_no_panic : forall kd v s, apply_kind kd v <> Panic s.
-Proof.
-  intros kd v s. destruct kd, v; cbn; try discriminate.
-  - destruct (z =? -1); discriminate.
-  - destruct (zlookup font_style_table z); discriminate.
-  - destruct (zlookup ms_char_set_table z); discriminate.
-  - destruct (get width_name_table s0); discriminate.
+    + exfalso. eapply apply_kind_no_panic; eauto.
 Qed.
 
 Lemma table_convert_no_panic : forall t r s, table_convert t r <> Panic s.
@@ -379,8 +377,8 @@ Proof.
   intros src lk k kd H. unfold row_typed in H.
   destruct (get src lk) as [t|]; [|discriminate].
   destruct (get ufo3_schema k) as [t'|]; [|discriminate].
-  destruct (kind_ty kd t) as [t''|]; [|discriminate].
-  exists t, t'. repeat split. destruct t', t''; try discriminate; reflexivity.
+  destruct (kind_ty kd t) as [t''|] eqn:K; [|discriminate].
+  exists t, t'. repeat split. destruct t', t''; try discriminate; exact K.
 Qed.
 
 Lemma v1_rows_typed : forallb (row_typed ufo1_schema) spec_v1_table = true.
@@ -424,7 +422,7 @@ Qed.
 
 Lemma p_int_ok : forall ok p z, p_int ok p = Some z -> ok z = true.
 Proof.
-  intros ok [z'| | | | | |] z H; cbn [p_int] in H; try discriminate.
+  intros ok p z H. destruct p as [z'| | | | | |]; cbn [p_int] in H; try discriminate.
   destruct (ok z') eqn:E; inversion H; subst. exact E.
 Qed.
 
@@ -438,7 +436,7 @@ Qed.
 Lemma p_list_forall : forall A (P : A -> bool) (f : pval -> option A) p l,
   (forall p a, f p = Some a -> P a = true) -> p_list f p = Some l -> forallb P l = true.
 Proof.
-  intros A P f [| | | | |l0|] l Hf H; cbn [p_list] in H; try discriminate.
+  intros A P f p l Hf H. destruct p as [| | | | |l0|]; cbn [p_list] in H; try discriminate.
   eapply all_some_forall; eauto.
 Qed.
 
@@ -503,10 +501,13 @@ Qed.
 Lemma get_remove_key_ne : forall A (i : list (string * A)) k k', k <> k' ->
   get (remove_key k' i) k = get i k.
 Proof.
-  induction i as [|[k0 v] i IH]; intros k k' Hne; [reflexivity|]. cbn [remove_key filter fst].
-  destruct (String.eqb k' k0) eqn:E; cbn [negb].
-  - apply String.eqb_eq in E. subst k0. rewrite get_cons_ne by exact Hne. apply IH. exact Hne.
-  - cbn [get]. destruct (String.eqb k k0); [reflexivity|]. apply IH. exact Hne.
+  induction i as [|[k0 v] i IH]; intros k k' Hne; [reflexivity|].
+  unfold remove_key in *. cbn [filter fst].
+  destruct (String.eqb k' k0) eqn:E; cbn [negb get].
+  - apply String.eqb_eq in E. subst k0.
+    destruct (String.eqb k k') eqn:E2; [apply String.eqb_eq in E2; congruence|].
+    apply IH. exact Hne.
+  - destruct (String.eqb k k0); [reflexivity|]. apply IH. exact Hne.
 Qed.
 
 Lemma get_assign_eq : forall k o i, get (assign k o i) k = o.
@@ -524,6 +525,10 @@ Proof. intros. cbn [assign_some]. apply get_assign_eq. Qed.
 Lemma get_assign_some_ne : forall k k' o i, k <> k' -> get (assign_some k' o i) k = get i k.
 Proof. intros k k' [v|] i Hne; cbn [assign_some]; [apply get_assign_ne; exact Hne|reflexivity]. Qed.
 
+Lemma get_assign_some_full : forall k o i,
+  get (assign_some k o i) k = match o with Some v => Some v | None => get i k end.
+Proof. intros k [v|] i; [apply get_assign_some_eq|reflexivity]. Qed.
+
 (** after the hint block every row of the hint table holds: plain values are assigned (also
     when absent: the attribute is then cleared), flattened lists only when present *)
 Lemma apply_hints_row : forall h i k hk s,
@@ -540,6 +545,7 @@ Proof.
     [ inversion Hin; subst; clear Hin;
       repeat first
         [ rewrite get_assign_eq
+        | rewrite get_assign_some_full
         | rewrite get_assign_ne by (intros C; discriminate C)
         | rewrite get_assign_some_ne by (intros C; discriminate C) ];
       try reflexivity | ]).
